@@ -108,6 +108,7 @@ type FuncSpec struct {
 	Func      bool // deterministic function of its arguments (implies Pure)
 	Inline    bool
 	Trusted   bool
+	TrustedTags []string // trusted[TAGS]: trusted only while one of these properties is being checked
 	Ghosts    []Param
 	CallSpecs map[string]*FuncSpec
 	Loops     map[int]*LoopSpec
@@ -127,6 +128,11 @@ type FuncSpec struct {
 	Helper    bool // internal helper: type invariants are neither assumed nor checked at its boundary
 }
 
+type LockInv struct {
+	Lock string
+	C    *Clause
+}
+
 type TypeSpec struct {
 	Pkg      string
 	Name     string
@@ -134,6 +140,8 @@ type TypeSpec struct {
 	Final    []string
 	FinalTags []string
 	FinalDecls []FinalDecl
+	LockInvs []LockInv // monitor invariants: assumed after acquiring the lock, checked before releasing it
+	Transient []FinalDecl // map fields: an entry a function inserts is gone again when that function returns
 	Inits    []string // functions that run before the object is shared: exempt from final/guarded checks, no establishment obligation
 	Owns     []string // channel fields whose closed-state only the private writers change
 	Private  []PrivateDecl
@@ -634,7 +642,7 @@ var clauseKeywords = map[string]bool{
 	"pred": true, "fun": true, "lemma": true, "ghost": true, "func": true, "extern": true, "type": true,
 	"callspec": true, "requires": true, "ensures": true, "modifies": true, "pure": true, "function": true, "inline": true,
 	"trusted": true, "loop": true, "before": true, "sweep": true, "guarded": true, "final": true, "atomic": true,
-	"confined": true, "private": true, "owns": true, "init": true, "holds": true, "helper": true, "counted": true, "records": true, "sweepscope": true, "nosweep": true, "waive": true, "callers-need-contract": true, "hb-by-channel": true, "invariant": true, "ctor": true, "params": true, "fresh": true, "end": true,
+	"confined": true, "transient": true, "lockinv": true, "private": true, "owns": true, "init": true, "holds": true, "helper": true, "counted": true, "records": true, "sweepscope": true, "nosweep": true, "waive": true, "callers-need-contract": true, "hb-by-channel": true, "invariant": true, "ctor": true, "params": true, "fresh": true, "end": true,
 }
 
 type rawClause struct {
@@ -988,7 +996,11 @@ func parseSpecFile(path string, pkgPath string) (*SpecFile, error) {
 			}
 		case "trusted":
 			if curF != nil {
-				curF.Trusted = true
+				if tags, _, _ := parseTags(rest); len(tags) > 0 {
+					curF.TrustedTags = append(curF.TrustedTags, tags...)
+				} else {
+					curF.Trusted = true
+				}
 			}
 		case "sweep":
 			if curF == nil {
@@ -1061,7 +1073,7 @@ func parseSpecFile(path string, pkgPath string) (*SpecFile, error) {
 				return nil, err
 			}
 			curF.Before = append(curF.Before, &CallAssert{callee, ord, c})
-		case "guarded", "final", "atomic", "confined", "hb-by-channel", "ctor", "invariant", "private", "owns", "init":
+		case "guarded", "final", "transient", "lockinv", "atomic", "confined", "hb-by-channel", "ctor", "invariant", "private", "owns", "init":
 			if curT == nil {
 				return fail(fmt.Errorf("%s outside type", kw))
 			}
@@ -1078,6 +1090,29 @@ func parseSpecFile(path string, pkgPath string) (*SpecFile, error) {
 				curT.FinalTags = append(curT.FinalTags, tags...)
 				curT.Final = append(curT.Final, splitNames(body)...)
 				curT.FinalDecls = append(curT.FinalDecls, FinalDecl{Fields: splitNames(body), Tags: tags})
+			case "lockinv":
+				// lockinv[TAGS label] mu: expr
+				tags, label, body := parseTags(rest)
+				k := strings.Index(body, ":")
+				if k < 0 {
+					return fail(fmt.Errorf("lockinv mu: expr"))
+				}
+				pre := ""
+				if len(tags) > 0 {
+					pre = "[" + strings.Join(tags, ",")
+					if label != "" {
+						pre += " " + label
+					}
+					pre += "] "
+				}
+				c, err := mkClause("lockinv", pre+strings.TrimSpace(body[k+1:]), rc.line)
+				if err != nil {
+					return nil, err
+				}
+				curT.LockInvs = append(curT.LockInvs, LockInv{Lock: strings.TrimSpace(body[:k]), C: c})
+			case "transient":
+				tags, _, body := parseTags(rest)
+				curT.Transient = append(curT.Transient, FinalDecl{Fields: splitNames(body), Tags: tags})
 			case "init":
 				curT.Inits = append(curT.Inits, splitNames(rest)...)
 			case "owns":
